@@ -191,13 +191,17 @@ static vf::Result shard_main(const vf::Args& a, Env& env, const Plan& pl, int sh
 			one(c, "d_random", true);
 		}
 	}
+	// light mode costs ~4x (every iteration runs the emitted SuperscalarHash): in the two big enumerations only every 2nd (thorough: 4th)
+	// light-mode combination stays light -> 25% / 12.5% of their cases
+	uint64_t thin_n = 0; const uint64_t thin_div = pl.thorough ? 4 : 2;
+	auto thin = [&](CaseSpec& cs) { if (cs.mode && (thin_n++ % thin_div)) cs.mode = 0; };
 	if (!SUBSET_PROFILE) {
 		// ---- (b) sequences
 		FamB fb(pl.thorough);
 		for (uint64_t j = 0; j < fb.jobs() && !stop(); ++j) {
 			if (!mine()) continue;
 			for (unsigned q = 0; q < (pl.thorough ? 1u : 3u); ++q) {
-				set_combo(c, (unsigned)((j >> 1) * 29 + (j & 1) * 64 + j / 977 + q * 43), pl.light); fb.build(env, c, j);
+				set_combo(c, (unsigned)((j >> 1) * 29 + (j & 1) * 64 + j / 977 + q * 43), pl.light); thin(c); fb.build(env, c, j);
 				one(c, "b_sequences", false);
 			}
 		}
@@ -205,13 +209,13 @@ static vf::Result shard_main(const vf::Args& a, Env& env, const Plan& pl, int sh
 		// ---- (a) every instruction word, two packings x two versions
 		FamA fa(pl.thorough, pl.seed);
 		r.mx["family_a_words"] = fa.N; r.mx["family_a_imm_values"] = fa.imms.size(); r.mx["family_a_mod_values"] = fa.mods.size();
-		unsigned K = pl.thorough ? 1 : 4;
+		unsigned K = pl.thorough ? 1 : 3;
 		for (int packing = 0; packing < 2; ++packing) for (int v = 1; v <= 2; ++v) {
 			uint64_t np = fa.programs(v);
 			for (uint64_t k = 0; k < np && !stop(); ++k) {
 				if (!mine()) continue;
 				for (unsigned q = 0; q < K; ++q) {
-					c.version = v; set_combo(c, (unsigned)(k * 37 + q * 53 + packing * 11 + v * 5), pl.light);
+					c.version = v; set_combo(c, (unsigned)(k * 37 + q * 53 + packing * 11 + v * 5), pl.light); thin(c);
 					fa.build(env, c, packing, k);
 					one(c, "a_words", false);
 				}
